@@ -16,8 +16,11 @@ Inductive shape := XY | XZ | YZ | Vol3d.
 (* Size(): (gw, gh) for a 2d slice, (gw, gh, gd) for a subvolume *)
 Record geom : Type := G { gshape : shape; goff : pt; gw : Z; gh : Z; gd : Z }.
 
-(* instance properties: block size, bytes per voxel (all channels), Background *)
-Record cfg : Type := C { bsz : pt; bpv : Z; bgv : N }.
+(* instance properties: block size, bytes per voxel (all channels), Background; bgpat is one voxel
+   with every value set to Background (little-endian integers, IEEE floats) and bgfix says whether
+   the code fills with that voxel (repo_patches/C17-4-fix.diff) or, as it stood, with the byte
+   (one-byte voxels only in BackgroundBlock/NewVoxels, every byte in GET blocks) *)
+Record cfg : Type := C { bsz : pt; bpv : Z; bgv : N; bgpat : bytes; bgfix : bool }.
 
 Definition zlen {A} (l : list A) : Z := Z.of_nat (length l).
 
@@ -129,9 +132,13 @@ Fixpoint st_put (st : bstore) (b : pt) (v : bytes) : bstore :=
 
 Definition block_voxels (c : cfg) : Z := px (bsz c) * py (bsz c) * pz (bsz c).
 Definition block_bytes (c : cfg) : Z := block_voxels c * bpv c.
-(* BackgroundBlock(): the background byte only for one-byte voxels *)
-Definition bg_byte (c : cfg) : N := if negb (N.eqb (bgv c) 0) && (bpv c =? 1) then bgv c else 0%N.
-Definition background_block (c : cfg) : bytes := repeat (bg_byte c) (Z.to_nat (block_bytes c)).
+(* byte ch of a background voxel as BackgroundBlock() / NewVoxels write it *)
+Definition bg_at (c : cfg) (ch : Z) : N :=
+  if bgfix c then nth (Z.to_nat ch) (bgpat c) 0%N
+  else if negb (N.eqb (bgv c) 0) && (bpv c =? 1) then bgv c else 0%N.
+Definition bg_voxel (c : cfg) : bytes := map (fun ch => bg_at c (Z.of_nat ch)) (seq 0 (Z.to_nat (bpv c))).
+Definition bg_tile (c : cfg) (nvox : Z) : bytes := concat (repeat (bg_voxel c) (Z.to_nat nvox)).
+Definition background_block (c : cfg) : bytes := bg_tile c (block_voxels c).
 
 (* ---- block iteration: IndexZYXIterator ---- *)
 (* Valid(): bytes.Compare(key(cursor), key(end)) <= 0 *)
@@ -248,18 +255,22 @@ Definition post_raw (c : cfg) (s : state) (off size : pt) (data : bytes) (roi : 
   | Panic => Panic
   end.
 
-(* GetVoxels: only the blocks present in the store are visited; blocks outside a given ROI read
-   as a background block.  [init] is the buffer NewVoxels allocates. *)
-Fixpoint get_blocks_into (c : cfg) (g : geom) (stride : Z) (st : bstore) (data : bytes) (bl : list (pt * bool)) : res bytes :=
+(* GetVoxels: only the blocks present in the store are visited.  A block outside a given ROI
+   reads as a background block, or, with ?attenuation=n, as its bytes shifted right by n
+   (readScaledBlock as repaired by repo_patches/C17-5-fix.diff; it refuses voxels wider than one
+   byte, the error is logged and the block skipped). *)
+Definition scaled_block (att : Z) (v : bytes) : bytes := map (fun x => N.shiftr x (Z.to_N att)) v.
+Fixpoint get_blocks_into (c : cfg) (g : geom) (stride : Z) (st : bstore) (att : Z) (data : bytes) (bl : list (pt * bool)) : res bytes :=
   match bl with
   | [] => Ok data
   | (b, ins) :: t =>
     match st_get st b with
-    | None => get_blocks_into c g stride st data t
+    | None => get_blocks_into c g stride st att data t
     | Some v =>
-      let blk := if ins then v else background_block c in
+      if negb ins && negb (att =? 0) && negb (bpv c =? 1) then get_blocks_into c g stride st att data t else
+      let blk := if ins then v else if att =? 0 then background_block c else scaled_block att v in
       match read_block c g stride data blk b with
-      | Ok d => get_blocks_into c g stride st d t
+      | Ok d => get_blocks_into c g stride st att d t
       | e => e
       end
     end
@@ -268,21 +279,27 @@ Fixpoint get_blocks_into (c : cfg) (g : geom) (stride : Z) (st : bstore) (data :
 (* fill = true: the repaired NewVoxels (repo_patches/C17-1-fix.diff) presets the buffer to the
    background byte like BackgroundBlock does; fill = false: the code as it stands (zeros) *)
 Definition new_buffer (fill : bool) (c : cfg) (g : geom) : bytes :=
-  repeat (if fill then bg_byte c else 0%N) (Z.to_nat (bpv c * g_numvoxels g)).
+  if fill then bg_tile c (g_numvoxels g) else repeat 0%N (Z.to_nat (bpv c * g_numvoxels g)).
 
-Definition get_raw (fill : bool) (c : cfg) (s : state) (g : geom) (roi : option (list span)) : res bytes :=
+Definition get_raw_att (fill : bool) (c : cfg) (s : state) (g : geom) (roi : option (list span)) (att : Z) : res bytes :=
   if negb (1 <=? g_numvoxels g) then Err else
   match geom_blocks c g with
-  | Ok bl => get_blocks_into c g (gw g * bpv c) (blocks s) (new_buffer fill c g) (roi_flags roi bl)
+  | Ok bl => get_blocks_into c g (gw g * bpv c) (blocks s) att (new_buffer fill c g) (roi_flags roi bl)
   | Err => Err
   | Panic => Panic
   end.
 
-(* GET blocks/<coord>/<span>: stored blocks or Background bytes (every byte, whatever the voxel width) *)
+Definition get_raw (fill : bool) (c : cfg) (s : state) (g : geom) (roi : option (list span)) : res bytes :=
+  get_raw_att fill c s g roi 0.
+
+(* GET blocks/<coord>/<span>: stored blocks or background; the code before C17-4 repeated the
+   Background byte in every byte whatever the voxel width *)
+Definition blocks_background (c : cfg) : bytes :=
+  if bgfix c then background_block c else repeat (bgv c) (Z.to_nat (block_bytes c)).
 Definition get_blocks (c : cfg) (s : state) (start : pt) (span : Z) : bytes :=
   flat_map (fun i => match st_get (blocks s) (px start + Z.of_nat i, py start, pz start) with
-                     | Some v => if zlen v =? block_bytes c then v else repeat (bgv c) (Z.to_nat (block_bytes c))
-                     | None => repeat (bgv c) (Z.to_nat (block_bytes c))
+                     | Some v => if zlen v =? block_bytes c then v else blocks_background c
+                     | None => blocks_background c
                      end) (seq 0 (Z.to_nat span)).
 
 (* POST blocks/<coord>/<span>.  fixed = false is the code as it stands: it takes Prod(BlockSize)
